@@ -274,6 +274,13 @@ func RunCheck(o CheckOpts) int {
 	if o.Verbose {
 		for _, r := range results {
 			fmt.Printf("  %-8s %-70s %s %dms x%d  %s\n", r.Status, r.Name, r.Solver, r.Ms, r.Paths, r.Pos)
+			if r.Status != "unsat" {
+				for _, ob := range groups[r.Name].obs {
+					if ob.Res.Status != "unsat" {
+						fmt.Printf("      path %s: %s %v %s\n", ob.Trace, ob.Res.Status, ob.Res.All, ob.File)
+					}
+				}
+			}
 		}
 		for _, n := range E.Notes {
 			fmt.Println("  note:", n)
